@@ -137,27 +137,41 @@ theorem firstMatch_toRulesDoc (rxId : String → Nat) (env : EnvR) (fb : Nat) :
 
 /-! ## position lemmas: the `AddSet` index of a domain set is its own match-set position -/
 
+theorem lowerPats_toPat (rxId : String → Nat) (k : DKey) (ps : List String) :
+    C11.lowerPats (toKind k) (ps.map (toPat rxId)) = ps.map (docPat rxId k) := by
+  cases k <;> simp [C11.lowerPats, toKind, docPat, toPat]
+
+theorem addCalls_lowered (rxId : String → Nat) (P : Prog) :
+    (addCalls rxId P).map C11.AddCall.lowered =
+      P.doms.map fun d => ⟨d.idx, toKind d.key, d.pats.map (docPat rxId d.key)⟩ := by
+  simp only [addCalls, List.map_map]
+  apply List.map_congr_left
+  intro d _
+  simp [C11.AddCall.lowered, lowerPats_toPat]
+
 theorem docMatches_at (rxId : String → Nat) (name : C11.Str) (rxHits : List Nat)
     (pre suf : List (Entry Atom Nat)) (e : Entry Atom Nat) (k : DKey) (ps : List String)
     (he : e.cond = .dom k ps) :
     C11.docMatches (addCalls rxId (link (pre ++ e :: suf))) pre.length name rxHits =
-      ps.any fun s => C11.patMatches (toKind k) (toPat rxId s) (C11.normName name) rxHits &&
-        C11.patValid (toKind k) (toPat rxId s) := by
-  unfold C11.docMatches addCalls link
+      ps.any fun s => C11.patMatches (toKind k) (docPat rxId k s) (C11.normName name) rxHits &&
+        C11.patValid (toKind k) (docPat rxId k s) := by
+  unfold C11.docMatches
+  rw [addCalls_lowered]
+  unfold C11.docMatchesCore link
   simp only [List.any_map, Function.comp_def]
   rw [linkDoms_append]
   simp only [linkDoms, he, List.any_append, List.any_cons, Nat.zero_add, beq_self_eq_true, Bool.true_and]
   have h1 : (linkDoms pre 0).any (fun d => d.idx == pre.length &&
-      (d.pats.any fun s => C11.patMatches (toKind d.key) (toPat rxId s) (C11.normName name) rxHits &&
-        C11.patValid (toKind d.key) (toPat rxId s))) = false := by
+      (d.pats.any fun s => C11.patMatches (toKind d.key) (docPat rxId d.key s) (C11.normName name) rxHits &&
+        C11.patValid (toKind d.key) (docPat rxId d.key s))) = false := by
     rw [List.any_eq_false]
     intro d hd
     have := linkDoms_idx pre 0 d hd
     have : (d.idx == pre.length) = false := by simp; omega
     simp [this]
   have h2 : (linkDoms suf (pre.length + 1)).any (fun d => d.idx == pre.length &&
-      (d.pats.any fun s => C11.patMatches (toKind d.key) (toPat rxId s) (C11.normName name) rxHits &&
-        C11.patValid (toKind d.key) (toPat rxId s))) = false := by
+      (d.pats.any fun s => C11.patMatches (toKind d.key) (docPat rxId d.key s) (C11.normName name) rxHits &&
+        C11.patValid (toKind d.key) (docPat rxId d.key s))) = false := by
     rw [List.any_eq_false]
     intro d hd
     have := linkDoms_idx suf (pre.length + 1) d hd
@@ -448,7 +462,7 @@ theorem request_match_real_is_first_match (n : Nat) (rxId : String → Nat) (rs 
     have hout : ∀ r ∈ splitRequestRules rs, r.out < 0xFE := fun r hr => hw.1 r (List.mem_filter.mp hr).1
     -- a request program has no ip sets and uses no addresses: instantiate with `ips := []`
     have hcalls := addCalls_ok rxId n P hdom
-    obtain ⟨b, hb, hidx⟩ := C11.Props.domain_matcher_correct n (addCalls rxId P) env.name env.rxHits hcalls hn
+    obtain ⟨b, hb, hidx⟩ := C11.Props.domain_matcher_correct_any_case n (addCalls rxId P) env.name env.rxHits hcalls hn
     have hwf : P.ipsWF = true := by
       apply ipsWF_of_rules (splitRequestRules rs) fb P hc
       intro r hr f hf
@@ -490,7 +504,7 @@ theorem response_match_real_is_first_match (n : Nat) (rxId : String → Nat) (rs
     (hips : ∀ r ∈ rs, ∀ f ∈ r.funcs, f.ipParamsWF) (haddr : ∀ a ∈ env.ips, a < 2 ^ 128) :
     responseMatchReal n rxId P env = .hit (firstMatchDoc rxId env rs fb) := by
   have hcalls := addCalls_ok rxId n P hdom
-  obtain ⟨b, hb, hidx⟩ := C11.Props.domain_matcher_correct n (addCalls rxId P) env.name env.rxHits hcalls hn
+  obtain ⟨b, hb, hidx⟩ := C11.Props.domain_matcher_correct_any_case n (addCalls rxId P) env.name env.rxHits hcalls hn
   have hwf := ipsWF_of_rules rs fb P hc hips
   have h := scanReal_compile rxId n env rs fb P hc hw.1 hw.2 hdom hwf haddr
   unfold responseMatchReal responseMatchBuilt
